@@ -338,12 +338,56 @@ Definition spec_ok (c : coll) (dflts overrides : tree) (bodies : nat -> list op)
     root first); calls without a name, and names outside the canonical form,
     live where the task is (first) bound -- in a tree where every task is bound
     once both agree. *)
+(** Names are spelling-insensitive: inside a segment '_' and '-' are the same
+    name (C17's [norm_seg]); a call may carry a spelling other than the one the
+    tree stores (the command line hands the executor the dashed form also for
+    members of a collection that keeps underscores).  [ref_path_sp] is
+    [ref_path] with segments compared up to that spelling. *)
+Definition seg_same (a b : string) : bool := String.eqb (norm_seg true a) (norm_seg true b).
+
+Definition assoc_sp {A} (s : string) (l : list (string * A)) : option A :=
+  match find (fun kv => seg_same s (fst kv)) l with Some kv => Some (snd kv) | None => None end.
+
+Definition task_here_sp (c : coll) (s : string) : option taskinfo :=
+  match assoc_sp s (c_tasks c) with
+  | Some t => Some t
+  | None => match assoc_sp s (c_aliases c) with
+            | Some k => assoc k (c_tasks c)
+            | None => None
+            end
+  end.
+
+Fixpoint ref_path_sp (c : coll) (segs : list string) {struct c}
+  : option (taskinfo * list dict) :=
+  match c with
+  | Coll _ tasks aliases subs dflt _ cfg =>
+      ref_step
+        (fun k rest =>
+           (fix go (l : list (string * coll)) {struct l}
+              : option (option (taskinfo * list dict)) :=
+              match l with
+              | [] => None
+              | (k', sc) :: l' => if seg_same k k' then Some (ref_path_sp sc rest) else go l'
+              end) subs)
+        (task_here_sp c) dflt cfg segs
+  end.
+
+Definition path_if (r : option (taskinfo * list dict)) (tid : nat) : option (list dict) :=
+  match r with
+  | Some (t, cfgs) => if Nat.eqb (t_id t) tid then Some cfgs else None
+  | None => None
+  end.
+
 Definition call_path (c : coll) (tid : nat) (called_as : option string) : option (list dict) :=
   match called_as with
-  | Some n => match ref_path c (segs_of n) with
-              | Some (t, cfgs) => if Nat.eqb (t_id t) tid then Some cfgs else home c tid
-              | None => home c tid
-              end
+  | Some n =>
+      match path_if (ref_path c (segs_of n)) tid with
+      | Some cfgs => Some cfgs                       (* the name as stored *)
+      | None => match path_if (ref_path_sp c (segs_of n)) tid with
+                | Some cfgs => Some cfgs             (* another spelling of a stored name *)
+                | None => home c tid
+                end
+      end
   | None => home c tid
   end.
 
